@@ -529,6 +529,9 @@ func (pe *PolicyEngine) deletePod(p *corev1.Pod) error {
 	}
 
 	delete(pe.podsMap, podName)
+	if podToDelete == nil { // the pod is not in the policy-engine, nothing to update
+		return nil
+	}
 	pe.updatePodOwnersToRepresentativePodMapIfRequired(podToDelete)
 	return nil
 }
@@ -586,6 +589,9 @@ func (pe *PolicyEngine) deleteAdminNetworkPolicy(anp *apisv1a.AdminNetworkPolicy
 }
 
 func (pe *PolicyEngine) deleteBaselineAdminNetworkPolicy(banp *apisv1a.BaselineAdminNetworkPolicy) error {
+	if pe.baselineAdminNetpol == nil { // no banp in the policy-engine, nothing to delete
+		return nil
+	}
 	if pe.baselineAdminNetpol.Name == banp.Name { // if this is the banp used in pe delete it
 		// @TBD : should keep this if? no other banps are in the resources (illegal)
 		pe.baselineAdminNetpol = nil
